@@ -28,6 +28,10 @@ def run(seeds=(1, 2, 3)):
             total += 1
             if v1 != v2:
                 diffs.append(f"seed {seed}: '{n1}' stand-in={v1} real={v2}")
+    # the solver wrapper's hard deadline (a solver that ignores its own time limit must be cut off, not waited for)
+    w = subprocess.run([os.path.join(BUILD, "symex", "debug", "vx"), "watchdog-test"], stdout=subprocess.PIPE, stderr=subprocess.PIPE, env=env)
+    if w.returncode != 0:
+        diffs.append("solver watchdog self-test failed: " + w.stdout.decode()[-200:])
     res = {"ok": not diffs, "scenarios": total, "diffs": diffs[:20], "seeds": list(seeds)}
     os.makedirs(BUILD, exist_ok=True)
     tmp = os.path.join(BUILD, f"selftest.json.{os.getpid()}")
